@@ -13,6 +13,7 @@ from . import bootstrap as B
 from . import diffgen as G
 from . import probes
 from .jobs import REGISTRY, Collector, job
+from . import spec as S
 from .spec import jsonable
 from .sym import Sym, same, short
 
@@ -116,7 +117,7 @@ def build_twz(prog, plain, cfg, strip_flags=False, top=True):
             kw["unpack_to"] = fs["unpack_to"]
         if not via_config or not top:
             kw.update(priority=fs["priority"], is_sequential=fs["is_sequential"])
-        xns[name] = xn(**kw)(plain[name])
+        xns[name] = S.declare_xn(plain[name], kw, name, salt=str(cfg.get("mc")) + str(len(prog["stmts"])))
     for st in prog["stmts"]:
         if st["op"] == "call":
             env["%s_s%d" % (prog["name"], st["site"])] = xns[st["fn"]]
@@ -124,8 +125,9 @@ def build_twz(prog, plain, cfg, strip_flags=False, top=True):
         env[iname] = build_twz(ip, plain, cfg, strip_flags, top=False)
     exec(compile(G.render(prog, strip_flags), "<%s>" % prog["name"], "exec"), env)  # noqa: S102
     if not top:
-        return dag(max_concurrency=cfg.get("inner_mc", 1))(env[prog["name"]])
-    d = dag(max_concurrency=cfg["mc"] if cfg.get("mc_via") == "decorator" else 1, is_async=cfg["is_async"])(env[prog["name"]])
+        return S.declare_dag(env[prog["name"]], dict(max_concurrency=cfg.get("inner_mc", 1)), prog["name"], salt=str(len(prog["stmts"])))
+    d = S.declare_dag(env[prog["name"]], dict(max_concurrency=cfg["mc"] if cfg.get("mc_via") == "decorator" else 1, is_async=cfg["is_async"]),
+                      prog["name"], salt=str(len(prog["stmts"])))
     conf = {}
     if cfg.get("mc_via") != "decorator":
         conf["max_concurrency"] = cfg["mc"]
